@@ -35,6 +35,14 @@ def _decode(x):
     return x
 
 
+class GeneratorCrashed(Exception):
+    """openapi_python_client.generate() raised instead of returning diagnostics"""
+
+    def __init__(self, what, document, config, meta, tb):
+        super().__init__(what)
+        self.what, self.document, self.config, self.meta, self.tb = what, document, config, meta, tb
+
+
 def generate_tree(document=None, document_text=None, config=None, meta="none", suffix=".json", out=None):
     """Run the real generator on a document; returns (errors, out_dir, files)."""
     from openapi_python_client import generate
@@ -53,7 +61,13 @@ def generate_tree(document=None, document_text=None, config=None, meta="none", s
     outp = Path(out) if out else tmp / "out"
     cfg = Config.from_sources(ConfigFile(**cf), MetaType[meta.upper()], document_source=doc, file_encoding="utf-8",
                               overwrite=True, output_path=outp)
-    errors = generate(config=cfg)
+    try:
+        errors = generate(config=cfg)
+    except Exception as e:      # noqa: BLE001
+        # the REAL generator raised on a document of the harness: not an engine error but an observation about /repo (C06)
+        import traceback
+        raise GeneratorCrashed(f"{type(e).__name__}: {e}", document if document is not None else document_text, cf, meta,
+                               traceback.format_exc(limit=6)) from e
     files = {}
     if outp.exists():
         for p in sorted(outp.rglob("*")):
